@@ -18,6 +18,17 @@ Fixpoint trace (s : S) (h : list (list Z)) : list (list Z) :=
 Definition mtrace (s : S) (h : list (list Z)) : list (list Z) := post s [] :: trace s h.
 End Trace.
 
+(* a block embedded in a larger design whose other logic drives its inputs: the inputs change at every edge too, so what is
+   visible after edge k is  post S_k (inputs visible NOW),  while edge k+1 samples the inputs given as step inputs.
+   i0 = inputs visible at power-up; h = list of (inputs sampled at the edge, inputs visible after the edge). *)
+Fixpoint etrace_go {S} (step : S -> list Z -> S) (post : S -> list Z -> list Z) (s : S) (h : list (list Z * list Z)) : list (list Z) :=
+  match h with
+  | [] => []
+  | (si, oi) :: h' => let s' := step s si in post s' oi :: etrace_go step post s' h'
+  end.
+Definition etrace {S} (step : S -> list Z -> S) (pre post : S -> list Z -> list Z) (s : S) (i0 : list Z) (h : list (list Z * list Z)) : list (list Z) :=
+  post s i0 :: etrace_go step post s h.
+
 Definition nopre {S} (_ : S) (_ : list Z) : list Z := [].
 (* ---- Reg: row [d; e; r] -> [q; value] *)
 Definition reg_spec_trace (w : Z) (he hr : bool) (rv : Z) :=
@@ -113,8 +124,52 @@ Definition cmp_last (n : nat) (row : list Z) (model spec : list (list Z)) : opti
 Definition failing (rs : list (option (nat * (nat * Z * Z)) * option (nat * (nat * Z * Z)))) :=
   filter (fun p => match snd p with (None, None) => false | _ => true end) (combine (seq 0 (length rs)) rs).
 
+(* embedded runs: every row (power-up included) is compared with the model and, on the output columns, with the reference machine *)
+Definition ecmp (impl model spec : list (list Z)) : option (nat * (nat * Z * Z)) * option (nat * (nat * Z * Z)) :=
+  (first_diff_from 0 impl model, first_diff_from 0 (prefix_rows impl spec) spec).
+Definition ecmp_spec (impl spec : list (list Z)) : option (nat * (nat * Z * Z)) * option (nat * (nat * Z * Z)) :=
+  (None, first_diff_from 0 (prefix_rows impl spec) spec).
 (* spec-only comparison *)
 Definition cmp_spec (impl spec : list (list Z)) : option (nat * (nat * Z * Z)) * option (nat * (nat * Z * Z)) :=
   (None, first_diff_from 1 (prefix_rows (tl impl) spec) spec).
 Definition cmp_last_spec (n : nat) (row : list Z) (spec : list (list Z)) : option (nat * (nat * Z * Z)) * option (nat * (nat * Z * Z)) :=
   (None, match diff_row 0 (firstn (length (last spec [])) row) (last spec []) with Some r => Some (n, r) | None => None end).
+
+(* ---- the same machines observed inside a larger design (see etrace): generated from the definitions above *)
+Definition reg_spec_etrace (w : Z) (he hr : bool) (rv : Z) :=
+  etrace (fun s i => match i with [d; e; r] => reg_spec w he hr rv s (d, e, r) | _ => s end) nopre
+        (fun s _ => [s]) (reg_spec_init w rv).
+Definition treg_spec_etrace (he hr : bool) :=
+  etrace (fun s i => match i with [t; e; r] => treg_spec he hr s (t, e, r) | _ => s end) nopre (fun s _ => [s]) 0.
+Definition counter_spec_etrace (w : Z) (hi hr : bool) :=
+  etrace (fun s i => match i with [r; n] => counter_spec w hi hr s (r, n) | _ => s end) nopre (fun s _ => [s]) 0.
+Definition modcounter_spec_etrace (m : Z) :=
+  etrace (fun s i => match i with [r; n] => modcounter_spec m s (r, n) | _ => s end) nopre
+        (fun s _ => [s; modcounter_carry_spec m s]) 0.
+Definition stepup_spec_etrace (w : Z) (hr : bool) :=
+  etrace (fun s i => match i with [r; n; st] => stepup_spec w hr s (r, n, st) | _ => s end) nopre (fun s _ => [s]) 0.
+Definition delay_spec_etrace (w wr : Z) (he hr : bool) (delay : nat) :=
+  etrace (fun log i => match i with [a; e; r] => delay_log he hr log (a, e, r) | _ => log end)
+        (fun log i => [delay_spec_out w wr delay log (hd 0 i)])
+        (fun log i => [delay_spec_out w wr delay log (hd 0 i)]) [].
+Definition pipe_spec_etrace (ws : list Z) :=
+  etrace (fun (_ : list Z) i => pipe_spec ws (removelast i) (last i 0)) nopre (fun s _ => s) [].
+Definition edge_spec_etrace (k : edge_kind) :=
+  etrace (fun (_ : Z) i => hd 0 i) (fun prev i => [edge_spec k prev (hd 0 i)])
+        (fun prev i => [edge_spec k prev (hd 0 i)]) 0.
+Definition clkdiv_spec_etrace (n : Z) (hr : bool) :=
+  etrace (fun c i => if hr then clkdiv_count c (hd 0 i) else c + 1) nopre (fun c _ => [clkdiv_spec_out n c]) 0.
+Definition srb_spec_etrace (w : Z) (depth : nat) :=
+  etrace (fun l i => match i with [li; ri; sl; sr] => srb_spec w l (li, ri, sl, sr) | _ => l end) nopre
+        (fun l _ => [hd 0 l; last l 0]) (repeat 0 depth).
+Definition stack_spec_etrace (w : Z) (depth : nat) :=
+  etrace (fun s i => match i with [d; pu; po] => stack_spec w depth s (d, pu, po) | _ => s end) nopre
+        (fun s _ => [snd s]) ([], 0).
+Definition mem_spec_etrace (wr : Z) :=
+  etrace (fun s i => match i with [ra; wa; we; wd] => mem_spec wr s (ra, wa, we, wd) | _ => s end) nopre
+        (fun s _ => [snd s]) mem_spec_init.
+Definition dp_spec_etrace (wra wrb : Z) :=
+  etrace (fun s i => match i with [raa; waa; wa; wda; rab; wab; wb; wdb] => dp_spec wra wrb s ((raa, waa, wa, wda), (rab, wab, wb, wdb)) | _ => s end) nopre
+        (fun s _ => [fst (snd s); snd (snd s)]) dp_spec_init.
+Definition ar_spec_etrace (w : Z) :=
+  etrace (fun k (_ : list Z) => S k) nopre (fun k _ => [autoreset_spec w k]) O.
